@@ -1,5 +1,7 @@
 package ast
 
+import "github.com/dcaiafa/lox/internal/parsergen/lr1"
+
 type ExternalRule struct {
 	baseStatement
 	Names []*ExternalName
@@ -12,6 +14,8 @@ func (r *ExternalRule) RunPass(ctx *Context, pass Pass) {
 type ExternalName struct {
 	baseAST
 	Name string
+
+	Terminal *lr1.Terminal
 }
 
 func (n *ExternalName) RunPass(ctx *Context, pass Pass) {
@@ -24,6 +28,6 @@ func (n *ExternalName) RunPass(ctx *Context, pass Pass) {
 		if !ctx.RegisterName(n.Name, n) {
 			return
 		}
-		ctx.Grammar.AddTerminal(n.Name)
+		n.Terminal = ctx.Grammar.AddTerminal(n.Name)
 	}
 }
